@@ -58,6 +58,10 @@ pub struct World {
     /// after an injected fault in the HTTP create-then-retry path, a client the model does not
     /// know may exist holding nothing (absent and empty are not distinguished then)
     pub tolerate_empty_clients: bool,
+    /// storage-call faults for the next request (S5)
+    pub next_faults: Vec<crate::world::StorageFault>,
+    /// ids to probe in projections besides those the model knows (e.g. an id whose response was lost)
+    pub extra_ids: std::collections::BTreeSet<Id>,
 }
 
 pub struct StepOut {
@@ -107,13 +111,54 @@ impl World {
             wire_override: None,
             last_raw: None,
             tolerate_empty_clients: false,
+            next_faults: Vec::new(),
+            extra_ids: Default::default(),
         };
         w.proj = w.take_projection()?;
         Ok(w)
     }
 
     pub fn ids(&self) -> Vec<Id> {
-        self.model.known_ids().into_iter().collect()
+        let mut s = self.model.known_ids();
+        s.extend(self.extra_ids.iter().cloned());
+        s.into_iter().collect()
+    }
+
+    /// A world on an existing data directory (SQLite), continuing from a given model state.
+    pub fn attach(seed: u64, dir: &std::path::Path, entry: Entry, n_clients: u8, cfg: Cfg, model: Model) -> anyhow::Result<World> {
+        let store = Store::open_dir(dir)?;
+        let inst = Instance::new(store.raw.clone(), cfg, None, 0);
+        let app = match entry {
+            Entry::Http => Some(HttpApp::new(&inst.web)),
+            Entry::Lib => None,
+        };
+        let clients: Vec<Id> = (0..n_clients).map(|c| client_id(seed, c)).collect();
+        let mut w = World {
+            seed,
+            n_clients,
+            cfg,
+            entry,
+            store,
+            inst,
+            app,
+            allow: None,
+            model,
+            clients,
+            proj: Projection::new(),
+            last_probe: None,
+            max_snap_pos: BTreeMap::new(),
+            digest: Digest::default(),
+            trace: Vec::new(),
+            steps: 0,
+            t0: sched::now_us(),
+            wire_override: None,
+            last_raw: None,
+            tolerate_empty_clients: false,
+            next_faults: Vec::new(),
+            extra_ids: Default::default(),
+        };
+        w.proj = w.take_projection()?;
+        Ok(w)
     }
 
     pub fn take_projection(&self) -> anyhow::Result<Projection> {
@@ -135,7 +180,7 @@ impl World {
 
     /// Issue a concrete request through the world's entry point (no oracle).
     pub fn issue(&mut self, req: &Req, ch: &Chunking, out: &mut RunOut) -> Resp {
-        self.inst.ctl.begin_request(vec![]);
+        self.inst.ctl.begin_request(std::mem::take(&mut self.next_faults));
         let resp = match (self.entry, &self.app) {
             (Entry::Http, Some(app)) => {
                 let (resp, raw, mm) = match self.wire_override.take() {
